@@ -58,7 +58,13 @@ pub fn run(args: &Args, rep: &mut Report) {
         let sk = gen_sk(&mut r);
         let pk = PublicKey::from_secret_key(&secp, &sk);
         let np = r.below(5);
-        let contract = Contract { predicates: (0..np).map(|_| crate::formats::gen_predicate(&mut r, false)).collect(), salt: if r.chance(0.2) { [0; 32] } else { r.bytes32() } };
+        let mut contract = Contract { predicates: (0..np).map(|_| crate::formats::gen_predicate(&mut r, false)).collect(), salt: if r.chance(0.2) { [0; 32] } else { r.bytes32() } };
+        if np >= 1 && r.chance(0.25) {
+            // a contract is a multiset of predicates: repeat one
+            let d = contract.predicates[r.below(np)].clone();
+            contract.predicates.push(d);
+        }
+        let np = contract.predicates.len();
         let case = |what: &str| json!({"engine": "sign", "what": what, "secret_key": hex::encode(sk.secret_bytes()), "contract": contract});
         crate::wal(&|| case("sign"));
         rep.evaluations += 1;
@@ -95,7 +101,22 @@ pub fn run(args: &Args, rep: &mut Report) {
         // any change to content unbinds the signer
         for _ in 0..2 {
             let mut t = signed.clone();
-            match r.below(4) {
+            match r.below(6) {
+                4 if !t.contract.predicates.is_empty() => {
+                    // one more copy of a predicate that is already there
+                    let d = t.contract.predicates[r.below(t.contract.predicates.len())].clone();
+                    t.contract.predicates.push(d);
+                }
+                5 if t.contract.predicates.len() >= 2 => {
+                    // turn one predicate into a copy of another
+                    let d = t.contract.predicates[0].clone();
+                    let i = 1 + r.below(t.contract.predicates.len() - 1);
+                    if t.contract.predicates[i] == d {
+                        t.contract.salt[0] ^= 1;
+                    } else {
+                        t.contract.predicates[i] = d;
+                    }
+                }
                 0 => t.contract.salt[r.below(32)] ^= 1 << r.below(8),
                 1 if !t.contract.predicates.is_empty() => {
                     let i = r.below(t.contract.predicates.len());
